@@ -28,6 +28,18 @@ INPUTS = {
     "bad_directive": "module t; `define\nendmodule\n",
     "undefined_macro": "module u; `NOPE endmodule\n",
     "library": "library l a.v, b.v;\ninclude \"x.map\";\n",
+    # calls the preprocessor rejects in the middle of a directive (round-2 seeded change: a directive parser that leaves
+    # its IN_DIRECTIVE entry behind on failure + an entry that no longer clears that stack)
+    "unterminated_ifdef": "`ifdef A\nmodule m; endmodule\n",
+    "bad_timescale": "`timescale 1ns\nmodule m; endmodule\n",
+    "stray_backtick": "module m; ` endmodule\n",
+    "include_noname": "`include\nmodule m; endmodule\n",
+    "stray_else": "module m; `else endmodule\n",
+    "bad_nettype": "`default_nettype foo\nmodule m; endmodule\n",
+    # probes whose result depends on the directive stack: comments, kept directives, a string followed by a line break
+    "with_comments": "// head\nmodule c; /* c */ wire w; // t\n/* m\n l */ endmodule // end\n",
+    "kept_directives": "`timescale 1ns/1ps\n`default_nettype none\nmodule d; `celldefine wire w; `endcelldefine endmodule\n",
+    "string_nl": "import \"DPI-C\"\n  function void f();\nmodule e; endmodule\n",
     "big": "module v; " + " ".join("wire w%d;" % i for i in range(400)) + " endmodule\n",
 }
 ENTRIES = ["preprocess_str", "parse_sv_str", "parse_sv_str_inc", "parse_lib_str", "raw_sv", "raw_lib", "raw_pp", "raw_sv_incomplete"]
@@ -55,8 +67,11 @@ def run(tier, seed):
     ops = [(e, i) for e in ENTRIES for i in INPUTS]
     # polluting operations (those that can leave residue) are used as history elements
     polluters = [(e, i) for (e, i) in ops if i in ("open_region", "open_region_twice", "resetall_first", "bad_directive", "recursion", "parse_reject_deep",
-                                                    "pp_reject", "big", "library", "accepted", "old_ident")]
-    probes = [(e, i) for (e, i) in ops if i in ("accepted", "uses_new_kw", "old_ident", "open_region", "library", "parse_reject_deep", "pp_reject", "resetall_first")]
+                                                    "pp_reject", "big", "library", "accepted", "old_ident",
+                                                    "unterminated_ifdef", "bad_timescale", "stray_backtick", "include_noname", "stray_else", "bad_nettype")]
+    probe_inputs = ["accepted", "uses_new_kw", "old_ident", "open_region", "library", "parse_reject_deep", "pp_reject", "resetall_first",
+                    "with_comments", "kept_directives", "string_nl"]
+    probes = [(e, i) for (e, i) in ops if i in probe_inputs]
     hists = [(p,) for p in polluters]
     pairs = list(itertools.product(polluters, polluters))
     rng.shuffle(pairs)
@@ -68,7 +83,8 @@ def run(tier, seed):
     meta = []
     pi = 0
     for h in hists:
-        ps = [probes[(pi * 7 + k) % len(probes)] for k in range(6 if quick else 12)]
+        # every probe input after every history, through a rotating entry point (thorough: two entry points)
+        ps = [(ENTRIES[(pi + k + j * 3) % len(ENTRIES)], inp) for k, inp in enumerate(probe_inputs) for j in range(1 if quick else 2)]
         pi += 1
         for p in ps:
             cases.append({"id": len(cases), "calls": [call(*x) for x in h] + [call(*p)]})
